@@ -46,6 +46,8 @@ def _py_distance_rules(ctx, m, F, rules):
             with ctx.scoped(lambda r, t: False):
                 kern.rule_psi(ctx, F)
         kern.rule_clamp(ctx, F)
+        if F.lang == 'c':
+            kern.rule_store_in_row(ctx, F)
     if 'dom' in rules:
         if 'prune' not in rules:
             with ctx.scoped(lambda r, t: False):
@@ -108,8 +110,18 @@ def C02(ctx):
             kern.rule_result_cell(ctx, F)
             kern.rule_length_diff_exit(ctx, F.name, F.file, F.prologue.events, F.amap, F.outer_line)
         else:
+            # the other side of the comparison: the Python kernel against the same scheme (band and recurrence; its own relaxation / threshold rules are C01's)
+            _py_distance_rules(ctx, m, F, ['band', 'rec'])
             with ctx.scoped(lambda r, t: False):
-                _py_distance_rules(ctx, m, F, ['rec'])
+                _py_distance_rules(ctx, m, F, ['dom'])
+    # the only_ub short-cut: whatever domain it returns (see F2), both engines must return the same one
+    doms = {F.name: getattr(F, 'only_ub_domain', None) for F in ks}
+    pyd = [d for F in ks if F.lang != 'c' for d in [doms[F.name]] if d]
+    for F in ks:
+        if F.lang == 'c' and doms[F.name] and pyd:
+            ctx.check(doms[F.name] == pyd[0], 'R-DOM', F.file, F.name, 'only_ub domain agreement',
+                      'with only_ub the Python engine returns the Euclidean bound in the %s domain, %s returns it in the %s domain: the two engines give different values '
+                      'for the same call' % (pyd[0], F.name, doms[F.name]), F.outer_line)
     ctx.count('kernels', len(ks))
     sig.rule_pxd_vs_header(ctx, m)
     with ctx.scoped(has('distance', 'ub_euclidean', 'lb_keogh', 'DTWSettings', 'distances', 'euclidean')):
@@ -192,6 +204,8 @@ def C05(ctx):
     wps.rule_best_path_prob_moves(ctx, m)
     wps.rule_best_path_markers(ctx, m)
     wps.rule_pyx_path_assembly(ctx, m)
+    cshape.rule_backtrack_repr(ctx, m)
+    cshape.rule_path_distance_domain(ctx, m)
     tables.rule_none_zero_encoding(ctx, m)
     for kir in (True, False):
         with ctx.scoped(lambda r, t: r == 'R-BAND'):
@@ -248,6 +262,8 @@ def C08(ctx):
     with ctx.scoped(lambda r, t: 'dd_ed.c' in t):
         bounds.rule_euclidean(ctx, m)            # the padding loops read element n-1 of the shorter series: n would be one past its end
     cshape.rule_config_invariance(ctx, m)
+    with ctx.scoped(has('path index roles')):
+        cshape.rule_dba_c(ctx, m)       # positions of one series indexing the other: out of bounds when the lengths differ
     with ctx.scoped(has('output slot', 'output store', 'pair counter', 'prefix-sum plan', 'row index')):
         iterspace.rule_omp(ctx, m)      # the parallel regions write output[slot]: the slot arithmetic bounds the write
     ctx.floor('R-ALLOC', 20, 'C + pyx allocation sites')
@@ -284,10 +300,12 @@ def C10(ctx):
     m = model(ctx.repo)
     for F in _kernels(ctx, m):
         _py_distance_rules(ctx, m, F, ['band'])
-        with ctx.scoped(has('penalty symmetric', 'DP predecessors', 'max_step guard', 'row reset')):
+        with ctx.scoped(has('penalty symmetric', 'DP predecessor', 'DP value', 'max_step guard', 'row reset')):
             kern.rule_recurrence(ctx, F)
         with ctx.scoped(has('psi')):
             kern.rule_psi(ctx, F)
+        # identity needs the end cell of the last row as the result; psi monotonicity needs the end relaxation to include it
+        kern.rule_result_cell(ctx, F)
     from .rules import bounds
     bounds.rule_band_laws(ctx)
     bounds.rule_point_distance(ctx, m, _kernels(ctx, m))
@@ -315,6 +333,9 @@ def C11(ctx):
         cshape.rule_shadow(ctx, m)
     from .rules import bounds
     bounds.rule_ndim_siblings(ctx, m)
+    for F in _kernels(ctx, m):
+        if 'ndim' in F.name:
+            _py_distance_rules(ctx, m, F, ['band', 'rec'])          # the multivariate kernels follow the univariate recurrence, cell for cell
     bounds.rule_point_distance(ctx, m, _kernels(ctx, m))        # vector point distances of the Python inner-distance classes and the C kernels
     cshape.rule_variant_callees(ctx, m)
     cshape.rule_sibling_skeleton(ctx, m, ['dtw_distance_ndim', 'dtw_warping_paths_ndim', 'euclidean_distance_ndim', 'ub_euclidean_ndim'])
@@ -338,6 +359,8 @@ def C12(ctx):
         fwd.rule_delegation(ctx, m, ['dtaidistance.dtw_ndim'])       # the n-D alignment used by the Python update step
     from .rules import wps
     wps.rule_best_path_prob_moves(ctx, m)      # the sampled alignment used by DBA with nb_prob_samples
+    with ctx.scoped(has('dba')):
+        cshape.rule_backtrack_repr(ctx, m)     # "an optimal warping path": backtracking needs the matrix in the representation it compares against
     ctx.floor('R-PATH', 12, 'C + Python DBA path rules')
 
 
@@ -355,6 +378,10 @@ def C13(ctx):
         fwd.rule_best_path_penalty(ctx, m, ['dtaidistance.subsequence.subsequencealignment'])
     from .rules import wps
     wps.rule_best_path_py(ctx, m)
+    # the matching function is the last row of the penalised cost matrix: both engines' matrices follow the one recurrence
+    with ctx.scoped(lambda r, t: r == 'R-REC'):
+        wps.rule_wps_writers(ctx, m, tier=ctx.tier)
+        _wp(ctx, m, True, ['rec'])
 
 
 def C14(ctx):
@@ -367,6 +394,8 @@ def C14(ctx):
     bounds.rule_lb_keogh(ctx, m)        # exactness under use_lb needs the bound to be a lower bound in both engines
     for F in _kernels(ctx, m):
         _py_distance_rules(ctx, m, F, ['prune'])      # the running k-th best threshold is passed as max_dist: pruning must be exact
+        with ctx.scoped(has('final threshold')):
+            _py_distance_rules(ctx, m, F, ['dom'])    # ... and compared with the result in the result's own domain
     ctx.floor('R-PATH', 8, 'search loop rules')
 
 
@@ -376,6 +405,9 @@ def C15(ctx):
     # merges are decided on the distance matrix of dists_fun: pairs may only be excluded (inf) by the options' own rules
     for F in _kernels(ctx, m):
         kern.rule_length_diff_exit(ctx, F.name, F.file, F.prologue.events, F.amap, F.outer_line)
+        with ctx.scoped(has('final threshold')):
+            # max_dist among the options: a pair at exactly max_dist is still mergeable, one above it is reported as infinite -- in the result's domain
+            _py_distance_rules(ctx, m, F, ['prune', 'dom'])
     with ctx.scoped(has('pair order', 'kernel must be called', 'kernel call')):
         iterspace.rule_iter_c_serial(ctx, m)
     ctx.floor('R-PATH', 10, 'merge loop + tree hook')
@@ -428,6 +460,7 @@ def C18(ctx):
     misc.rule_identity(ctx, m, ['dtaidistance.subsequence.localconcurrences'])
     wps.rule_dual(ctx, m)
     pyshape.rule_lc_marks(ctx, m)
+    pyshape.rule_lc_trace_stop(ctx, m)
     cshape.rule_sibling_skeleton(ctx, m, ['dtw_warping_paths_affinity_ndim'])
     wps.rule_wps_readers(ctx, m, affinity=True)
     # cells below the diagonal are blanked (only_triu) inside the row they belong to
@@ -445,6 +478,7 @@ def C19(ctx):
     mon.rule_similarity(ctx, m)
     mon.rule_squash_zero_offset(ctx, m)
     mon.rule_default_scale(ctx, m)
+    mon.rule_squash_derived_sign(ctx, m)
     mon.rule_cover_quantile(ctx, m)
 
 
@@ -463,6 +497,8 @@ def C20(ctx):
         pyshape.rule_subseq_search(ctx, m)
     with ctx.scoped(has('row offset advance')):
         cshape.rule_dba_c(ctx, m)                  # matrix container and pointer container must read the same series
+    with ctx.scoped(has('pair order', 'kernel must be called', 'kernel call')):
+        iterspace.rule_iter_c_serial(ctx, m)       # ... in the distance-matrix routines too: pair (r, c) is (row r, row c) of the array, whatever the container
     ctx.floor('R-EFF', 80, 'Python + C functions with series parameters')
     ctx.floor('R-SAN', 40, 'strided memoryview arguments')
 
